@@ -83,3 +83,109 @@ def run(report, tier):
     report.floor("raw-pointer entry points evaluated", n, 11)
     report.floor("positive control: short buffer reported", controls, n)
     report.extra["raw_pointer_entry_points"] = n
+
+
+# ------------------------------------------------------------------ alignment sweep (R16.4 discharge)
+
+def sweep_chacha(f, align):
+    """Value graphs of try_apply_keystream on symbolic data for one assumed buffer alignment."""
+    from . import check_chacha
+    from .report import Report
+    outs = []
+    for name in ("ChaCha20", "Ietf"):
+        for n in (300, 777):
+            bv.reset()
+            it = Interp(f, MODELS)
+            it.align_case = align
+            r = Report("C16", "quick", "other")
+            ok = check_chacha.run_history(it, f, name, [("apply", n)], r, "R16.4", "%s len=%d align=%d" % (name, n, align))
+            outs.append((name, n, ok, r.violations[:1]))
+    return outs
+
+
+def alignment_sweep(report, hits):
+    """Address-inspecting APIs were found (hits).  Decide alignment independence by evaluating the
+    byte-slice entry points under every assumed buffer alignment 0..31: results must equal the
+    specification for each."""
+    by_crate = sorted({h[2] for h in hits})
+    f = facts.load("K1")
+    decided = True
+    for crate in by_crate:
+        if crate not in ("c2_chacha",):
+            for h in hits:
+                if h[2] == crate:
+                    report.undecide("R16.4", "%s@%s" % (h[3], h[0]), "address inspection outside the swept entry points: " + h[4])
+            decided = False
+    if "c2_chacha" in by_crate:
+        bad = None
+        for a in range(32):
+            try:
+                for name, n, ok, viol in sweep_chacha(f, a):
+                    if not ok:
+                        bad = (a, name, n, viol)
+                        break
+            except Undecided as e:
+                report.undecide("R16.4", "alignment sweep c2_chacha align=%d" % a, str(e))
+                decided = False
+                bad = "undecided"
+                break
+            if bad:
+                break
+        for h in hits:
+            if h[2] != "c2_chacha":
+                continue
+            if bad is None:
+                report.ok("R16.4", "%s@%s: address inspection, results identical to the specification for all 32 buffer alignments" % (h[3], h[0]))
+            elif bad != "undecided":
+                a, name, n, viol = bad
+                report.violated("R16.4", "%s@%s" % (h[3], h[0]),
+                                "%s; with the data buffer at address = %d (mod 32) a %d-byte %s request no longer equals data ^ keystream: %s"
+                                % (h[4], a, n, name, (viol[0]["what"] if viol else "")[:200]))
+    return decided
+
+
+# ------------------------------------------------------------------ extent sweeps over request lengths (R16.2)
+
+def extent_sweep(report):
+    """Every byte-slice API evaluated by the pointer model for a dense range of lengths: an access
+    outside the caller's slice is reported (the data cell is exactly as long as the slice)."""
+    from . import check_chacha, check_hashapi
+    f = facts.load("K1")
+    n = 0
+    bad = {}
+    lengths = list(range(0, 81)) + list(range(250, 266)) + list(range(318, 331)) + [512, 777]
+    for name in ("ChaCha20", "Ietf"):
+        for pre in (0, 3):
+            for ln in lengths:
+                ops = ([("apply", pre)] if pre else []) + [("apply", ln)]
+                n += 1
+                for site, msg in check_chacha.run_history_modular(f, name, ops):
+                    if "memory" in msg or "out-of-bounds" in msg or "exceeds" in msg:
+                        bad.setdefault("c2_chacha apply_keystream", msg)
+    for t, fam, bb in check_hashapi.hashers(f):
+        if "<" in t and not t.endswith(("U32>", "U64>", "U128>")):
+            continue
+        upd = [k for k in f.instances if k == "<%s as digest::Update>::update::<&[u8]>" % t]
+        if not upd:
+            continue
+        for p in (0, 1):
+            for ln in list(range(0, 20)) + list(range(bb - 9, bb + 10)) + [2 * bb, 2 * bb + 3]:
+                n += 1
+                try:
+                    bv.reset()
+                    it = Interp(f, MODELS, hooks=check_hashapi.hooks_for(fam, t))
+                    cell = it.new_cell(check_hashapi.sym_hasher(it, t, p), "hasher")
+                    _, dcell = bytes_cell(it, "data", ln)
+                    it.call_instance(upd[0], [Ptr(cell, ()), Ptr(dcell, (), idx=0, meta=ln, ety="u8")])
+                except Diverge as d:
+                    if "memory" in str(d.site) or "out-of-bounds" in str(d.site) or "exceeds" in str(d.site):
+                        bad.setdefault("%s::update" % facts.abbrev(t), "update of %d bytes at buffer position %d: %s" % (ln, p, d.site[0]))
+                except Undecided as e:
+                    report.undecide("R16.2", "%s::update len=%d" % (facts.abbrev(t), ln), str(e))
+    for api, msg in bad.items():
+        report.violated("R16.2", "extent:%s" % api, "%s accesses memory outside the caller's slice: %s" % (api, msg[:300]))
+    if not bad:
+        report.ok("R16.2", "length sweep: %d (API, length) evaluations stay inside their slices" % n,
+                  sample={"apis": "c2_chacha try_apply_keystream; Update::update of 15 hashers", "evaluations": n})
+    report.extra["extent_sweep_evaluations"] = n
+    return n
